@@ -130,7 +130,9 @@ func newFakeCF(init []pubRec, quoted bool) *fakeCF {
 		}
 	}
 	f.recs = slots
-	f.srv = httptest.NewServer(http.HandlerFunc(f.handle))
+	f.srv = httptest.NewUnstartedServer(http.HandlerFunc(f.handle))
+	f.srv.Listener = resetListener{f.srv.Listener} // one server per case: closing with a reset leaves no TIME_WAIT entries behind
+	f.srv.Start()
 	return f
 }
 
@@ -220,6 +222,9 @@ func replayPubCase(c *pubCase, idx int) (diff string) {
 	defer func() {
 		if p := recover(); p != nil {
 			diff = fmt.Sprint("panic: ", p)
+			if envText(diff) {
+				diff = "ENV: " + diff
+			}
 		}
 	}()
 	f := newFakeCF(c.Init, idx%3 != 1) // every third zone stores unquoted values
@@ -323,8 +328,12 @@ func TestPublishCases(t *testing.T) {
 		}(i)
 	}
 	wg.Wait()
-	bad := 0
+	bad, env := 0, 0
 	for i, d := range results {
+		if strings.HasPrefix(d, "ENV: ") {
+			env++
+			continue
+		}
 		if d != "" {
 			bad++
 			if bad <= 30 {
@@ -332,5 +341,5 @@ func TestPublishCases(t *testing.T) {
 			}
 		}
 	}
-	w.Write(Ev{"summary": true, "cases": len(cases), "bad": bad})
+	w.Write(Ev{"summary": true, "cases": len(cases), "bad": bad, "env": env})
 }
